@@ -6,7 +6,7 @@ Separate Extraction
   ObjMgr.relocate_exec ObjMgr.relocate_create ObjMgr.relocate_range ObjMgr.copy_exec ObjMgr.move_exec
   ObjMgr.creator_copy ObjMgr.creator_move
   ArrayData.array_grow ArrayData.array_addback_grow ArrayData.pv_reset_intcap ArrayData.creator_relocate
-  ArrayData.rItems ArrayData.rCount ArrayData.rCap Ctor.array_copy_ctor Ctor.set_copy_ctor KeyValue.kv_relocate KeyValue.kv_create_copy KeyValue.kv_create_move
+  ArrayData.rItems ArrayData.rCount ArrayData.rCap Ctor.bucket_add_inplace Ctor.array_copy_ctor Ctor.set_copy_ctor KeyValue.kv_relocate KeyValue.kv_create_copy KeyValue.kv_create_move
   Effects.bind Effects.copy_construct Effects.destroy
   Replace.kv_replace Replace.kv_replace_relocate
   Relocator.run_plan Relocator.grow_plan Relocator.split_root_plan Tree.node_remove
